@@ -124,6 +124,23 @@ CLAIMS = {
     "'xquat[:,0] is the identity' are assumed. Target-tracking camera frames, light directions, flex frames are not covered.",
     "design_ref": "DESIGN.md 3 (C23), 12.5",
   },
+  "C24": {
+    "text": "solver._eval_constraint carries a contract (D > 0, frictionloss >= 0, TT >= 0, mu, D0 > 0 for elliptic rows): friction-loss "
+    "rows |force| <= frictionloss, limit / frictionless / pyramidal rows force >= 0, state SATISFIED => force 0, equality rows "
+    "force = -D*jaref, the state is one of the ConstraintState codes; proved against its body. The real kernel "
+    "solver._update_constraint_efc is executed against that contract (its preconditions are obligations at the call site, TT >= 0 a "
+    "loop invariant): for every live row of a world that is still solving it stores that value with the row classified by position, so "
+    "the three clauses hold for the stored efc.force / efc.state; done worlds and rows beyond nefc are untouched. Elliptic contacts "
+    "(condim 3 and 4, the kernel run with the contact's rows at symbolic addresses): normal force >= 0 and "
+    "sum_k (f_k/friction_k)^2 <= f_normal^2 in all three zones, given the relation REL between the rows' D values, and REL itself "
+    "(D_k * mu^2 == D_0 * friction_k^2 when unclamped) is proved as a two-thread relational obligation on the real "
+    "constraint._efc_contact_update kernel.",
+    "note": _BASE + "Exact over the reals. Preconditions on the rows (D > 0, frictionloss >= 0, equality < friction < other rows, "
+    "friction coefficients and impratio > 0) are what make_constraint establishes (C05, not claimed) and are assumed here. Not "
+    "decided: qfrc_constraint = J^T force (tile reduction), elliptic cones with condim 6, flex contacts' REL, rows clamped at "
+    "MJ_MINVAL, partially allocated contacts after a row overflow.",
+    "design_ref": "DESIGN.md 3 (C24), 12.5",
+  },
   "C25": {
     "text": "Transition contracts on the real termination kernels (_solve_done, _solve_cg_finalize; ctx.done aliased for in/out as at "
     "the launch site): per world niter increments by one and never exceeds the limit, the invariant 'not done => niter < iterations' is "
